@@ -4,6 +4,11 @@
 //   EXEC <dyn> <msub> <min_dt> <max_dt> <min_sf> <max_sf> <ti> <te> <n> ok1 r1 ... okn rn
 //        -> R <done|raise-*> <period> <subSteps> A <nattempts> (t dt ok period)* O <nout> t*
 //   CONV <eeps> <seps> <n> u1.. s1.. <ng> (c v)* <nf> (c v)*   -> C <0|1>  (real ImposedGradient/ImposedThermodynamicForce::checkConvergence)
+//   EXECN <dyn> <msub> <min_dt> <max_dt> <min_sf> <max_sf> <ti> <te> <itmax> <nopred> <n> u_1.. <nattempts> (<ncalls> (ok sf r_1..r_n chk)*)*
+//        the Newton branch (`iterate`, u1 non empty) of the REAL GenericSolver::execute around a scripted Study with K = identity
+//        -> N <status> <period> <subSteps> <iterations> A <nattempts> (t dt period ncalls)* U u_1.. u0.. u1.. u10..
+//   MCONV <file.mtest> <eeps> <seps> <iter> <t> <dt> <nu> u1.. <ns> s1.. <n> du.. <n> r..
+//        the REAL MTest::checkConvergence (norm part + active constraints) of the MTest object read from <file.mtest>  -> M <0|1>
 #include <cstdio>
 #include <cstdlib>
 #include <string>
@@ -21,6 +26,9 @@
 #include "MTest/GenericSolver.hxx"
 #include "MTest/ImposedGradient.hxx"
 #include "MTest/ImposedThermodynamicForce.hxx"
+#include "MTest/MTest.hxx"
+#include "MFront/MFrontLogStream.hxx"
+#include <map>
 
 using mtest::real;
 
@@ -74,7 +82,81 @@ struct ScriptedStudy final : mtest::Study {
   void setGaussPointPositionForEvolutionsEvaluation(const mtest::CurrentState&) const override {}
 };
 
+// ---- scripted Study for the Newton branch: K = identity (LUSolve gives du = r exactly), r / success / scaling factor / answer of
+// checkConvergence come from the script, per attempt (an attempt begins with `prepare`) and per call
+struct NewtonScriptedStudy final : mtest::Study {
+  struct Call {
+    bool ok;
+    real sf;
+    std::vector<real> r;
+    bool chk;
+  };
+  std::size_t n = 0;
+  std::vector<std::vector<Call>> script;
+  mutable std::vector<std::tuple<real, real, unsigned int, unsigned int>> attempts;  // t, dt, period, calls
+  mutable std::size_t cur = 0;
+  const Call* call() const {
+    const auto a = this->attempts.size() - 1;
+    if (a >= this->script.size()) return nullptr;
+    const auto k = std::get<3>(this->attempts.back());
+    if ((k == 0) || (k > this->script[a].size())) return nullptr;
+    return &(this->script[a][k - 1]);
+  }
+  size_type getNumberOfUnknowns() const override { return this->n; }
+  void initializeCurrentState(mtest::StudyCurrentState&) const override {}
+  void initializeWorkSpace(mtest::SolverWorkSpace&) const override {}
+  std::pair<bool, real> prepare(mtest::StudyCurrentState& scs, const real t, const real dt) const override {
+    this->attempts.push_back({t, dt, scs.period, 0u});
+    return {true, 1};
+  }
+  void makeLinearPrediction(mtest::StudyCurrentState&, const real) const override {}
+  bool doPackagingStep(mtest::StudyCurrentState&) const override { return true; }
+  std::pair<bool, real> computePredictionStiffnessAndResidual(mtest::StudyCurrentState&, tfel::math::matrix<real>&,
+                                                               tfel::math::vector<real>&, const real&, const real&,
+                                                               const mtest::StiffnessMatrixType) const override {
+    return {true, 1};
+  }
+  std::pair<bool, real> computeStiffnessMatrixAndResidual(mtest::StudyCurrentState&, tfel::math::matrix<real>& K,
+                                                           tfel::math::vector<real>& r, const real, const real,
+                                                           const mtest::StiffnessMatrixType) const override {
+    ++std::get<3>(this->attempts.back());
+    for (std::size_t i = 0; i != this->n; ++i) {
+      for (std::size_t j = 0; j != this->n; ++j) K(i, j) = (i == j) ? 1 : 0;
+    }
+    const auto* c = this->call();
+    for (std::size_t i = 0; i != this->n; ++i) r(i) = (c == nullptr) ? 0 : c->r[i];
+    return (c == nullptr) ? std::pair<bool, real>{true, 1} : std::pair<bool, real>{c->ok, c->sf};
+  }
+  real getErrorNorm(const tfel::math::vector<real>&) const override { return 0; }
+  bool checkConvergence(mtest::StudyCurrentState&, const tfel::math::vector<real>&, const tfel::math::vector<real>&,
+                        const mtest::SolverOptions&, const unsigned int, const real, const real) const override {
+    const auto* c = this->call();
+    return (c == nullptr) ? true : c->chk;
+  }
+  std::vector<std::string> getFailedCriteriaDiagnostic(const mtest::StudyCurrentState&, const tfel::math::vector<real>&,
+                                                       const tfel::math::vector<real>&, const mtest::SolverOptions&,
+                                                       const real, const real) const override {
+    return {};
+  }
+  void computeLoadingCorrection(mtest::StudyCurrentState&, mtest::SolverWorkSpace&, const mtest::SolverOptions&, const real,
+                                const real) const override {}
+  bool postConvergence(mtest::StudyCurrentState&, const real, const real, const unsigned int) const override { return true; }
+  void setModellingHypothesis(const std::string&) override {}
+  void printOutput(const real, const mtest::StudyCurrentState&, const bool) const override {}
+  void setDefaultModellingHypothesis() override {}
+
+ protected:
+  void setGaussPointPositionForEvolutionsEvaluation(const mtest::CurrentState&) const override {}
+};
+
+struct LoadedMTest {
+  std::shared_ptr<mtest::MTest> t;
+  mtest::StudyCurrentState state;
+};
+
 int main() {
+  mfront::setVerboseMode(mfront::VERBOSE_QUIET);
+  std::map<std::string, LoadedMTest> mtests;
   std::string line;
   while (std::getline(std::cin, line)) {
     std::istringstream is(line);
@@ -161,6 +243,104 @@ int main() {
           ok = f.checkConvergence(u, sg, eeps, seps, 0., 1.) && ok;
         }
         std::printf("C %d\n", ok ? 1 : 0);
+      } else if (cmd == "EXECN") {
+        mtest::SolverOptions o;
+        int dyn, nopred;
+        is >> dyn >> o.mSubSteps;
+        o.dynamic_time_step_scaling = dyn != 0;
+        o.minimal_time_step = rd(is);
+        o.maximal_time_step = rd(is);
+        o.minimal_time_step_scaling_factor = rd(is);
+        o.maximal_time_step_scaling_factor = rd(is);
+        const real ti = rd(is), te = rd(is);
+        is >> o.iterMax >> nopred;
+        o.ppolicy = nopred ? mtest::PredictionPolicy::NOPREDICTION : mtest::PredictionPolicy::LINEARPREDICTION;
+        o.ktype = mtest::StiffnessMatrixType::CONSISTENTTANGENTOPERATOR;
+        NewtonScriptedStudy s;
+        is >> s.n;
+        mtest::StudyCurrentState scs;
+        scs.initialize(s.n);
+        for (std::size_t i = 0; i != s.n; ++i) {
+          scs.u_1[i] = rd(is);
+          scs.u0[i] = scs.u1[i] = scs.u10[i] = scs.u_1[i];
+        }
+        std::size_t na;
+        is >> na;
+        s.script.resize(na);
+        for (auto& a : s.script) {
+          std::size_t nc;
+          is >> nc;
+          a.resize(nc);
+          for (auto& c : a) {
+            int ok, chk;
+            is >> ok;
+            c.ok = ok != 0;
+            c.sf = rd(is);
+            c.r.resize(s.n);
+            for (auto& x : c.r) x = rd(is);
+            is >> chk;
+            c.chk = chk != 0;
+          }
+        }
+        mtest::SolverWorkSpace wk;
+        wk.K.resize(s.n, s.n);
+        wk.p_lu.resize(s.n);
+        wk.x.resize(s.n);
+        wk.r.resize(s.n, 0.);
+        wk.du.resize(s.n, 0.);
+        std::string status = "done";
+        try {
+          mtest::GenericSolver().execute(scs, wk, s, o, ti, te);
+        } catch (std::exception& e) {
+          const std::string m = e.what();
+          status = m.find("maximum number of sub stepping") != std::string::npos ? "raise-maxsub"
+                   : m.find("negative time step") != std::string::npos        ? "raise-negative"
+                   : m.find("below its minimal value") != std::string::npos   ? "raise-belowmin"
+                                                                                : "raise-other";
+        }
+        std::printf("N %s %u %u %u A %zu", status.c_str(), scs.period, scs.subSteps, scs.iterations, s.attempts.size());
+        for (const auto& a : s.attempts) {
+          std::printf(" %a %a %u %u", std::get<0>(a), std::get<1>(a), std::get<2>(a), std::get<3>(a));
+        }
+        std::printf(" U");
+        for (const auto* v : {&scs.u_1, &scs.u0, &scs.u1, &scs.u10}) {
+          for (std::size_t i = 0; i != s.n; ++i) std::printf(" %a", (*v)[i]);
+        }
+        std::printf("\n");
+      } else if (cmd == "MCONV") {
+        std::string f;
+        is >> f;
+        auto p = mtests.find(f);
+        if (p == mtests.end()) {
+          LoadedMTest l;
+          l.t = std::make_shared<mtest::MTest>();
+          l.t->readInputFile(f, {}, {});
+          l.t->completeInitialisation();
+          l.t->initializeCurrentState(l.state);
+          p = mtests.insert({f, l}).first;
+        }
+        auto& l = p->second;
+        mtest::SolverOptions o;
+        o.eeps = rd(is);
+        o.seps = rd(is);
+        unsigned int iter;
+        is >> iter;
+        const real t = rd(is), dt = rd(is);
+        std::size_t nu, ns, n1, n2;
+        is >> nu;
+        if (nu != l.state.u1.size()) throw std::runtime_error("MCONV: invalid number of unknowns");
+        for (std::size_t i = 0; i != nu; ++i) l.state.u1[i] = rd(is);
+        auto& cs = l.state.getStructureCurrentState("").istates[0];
+        is >> ns;
+        if (ns != cs.s1.size()) throw std::runtime_error("MCONV: invalid number of thermodynamic forces");
+        for (std::size_t i = 0; i != ns; ++i) cs.s1[i] = rd(is);
+        is >> n1;
+        tfel::math::vector<real> du(n1);
+        for (auto& x : du) x = rd(is);
+        is >> n2;
+        tfel::math::vector<real> r(n2);
+        for (auto& x : r) x = rd(is);
+        std::printf("M %d\n", l.t->checkConvergence(l.state, du, r, o, iter, t, dt) ? 1 : 0);
       } else {
         std::printf("E unknown\n");
       }
